@@ -26,7 +26,7 @@ theorem C13_argv (macros : Option (List (Bytes × Bytes))) (ml : MatchList) (i :
 exit code for 1..126 and 128.., -1 for 127, 128 + signal for a signalled child, -1 when /dev/null,
 fork or waitpid fail. -/
 theorem C13_status (fdin : Option Handle) (orc : Nat → Call → Res) :
-    ∃ devnullOk forkRes waitRes, (runOracle orc (execP fdin) 0 []).1 = Proofs.execValue devnullOk forkRes waitRes :=
+    ∃ devnullOk forkRes waitRes, (runOracle orc (execP fdin) 0 []).1 = Model.execValue devnullOk forkRes waitRes :=
   Proofs.execP_value fdin orc
 
 /-- A non-zero value of `exec()` is an error of the exec action ... -/
@@ -70,11 +70,16 @@ example :
     [0, 1, 2, 126, 127, 128, 129, 200, 255].map (fun c => execStatus (c * 256)) = [0, 1, 2, 126, -1, 128, 129, 200, 255] ∧
     [15, 9, 11, 11 + 128, 6 + 128].map execStatus = [143, 137, 139, 139, 134] := by decide
 
+/-- A child whose `execvp` fails exits with `Model.execvpFailedStatus` = 127 whatever the reason (ENOENT, EACCES, ...):
+for the parent that is the fatal value -1, never a positive "ran and said no". -/
+theorem C13_execvp_failure_is_fatal : execStatus (execvpFailedStatus * 256) = -1 ∧ Proofs.waitKind (execvpFailedStatus * 256) = .exited 127 := by
+  decide
+
 /-- Reading the three results `exec()` consumes. -/
 theorem C13_child_outcome (d : Bool) (f w : Res) :
     (∀ k, Proofs.childOutcome d f w = .waited k ↔ d = true ∧ ∃ pid s, f = .ok pid ∧ w = .ok s ∧ Proofs.waitKind s = k) ∧
     (Proofs.childOutcome d f w = .cannotRun ↔ d = false ∨ (∀ pid, f ≠ .ok pid) ∨ (∀ s, w ≠ .ok s)) ∧
-    Proofs.execValue d f w = Proofs.outcomeValue (Proofs.childOutcome d f w) :=
+    Model.execValue d f w = Proofs.outcomeValue (Proofs.childOutcome d f w) :=
   ⟨Proofs.childOutcome_waited_iff d f w, Proofs.childOutcome_cannotRun_iff d f w, Proofs.execValue_outcome d f w⟩
 
 /-- **The `command` condition, for every wait status.**  `Model.eval` on a `command` node whose strings interpolate to
@@ -90,7 +95,7 @@ theorem C13_child_outcome (d : Bool) (f w : Res) :
 and in every case the match list is left as it was. -/
 theorem C13_command_status (env : Env) (root : Msg) (lno : Nat) (argv av : List Bytes) (part : Nat) (m : Msg) (st : St)
     (hav : argv.mapM (interpolate st.ml none) = some av)
-    (d : Bool) (f w : Res) (hrc : env.command av = Proofs.execValue d f w) :
+    (d : Bool) (f w : Res) (hrc : env.command av = Model.execValue d f w) :
     let o := Proofs.childOutcome d f w
     let r := eval env root (.command lno argv) part m st
     r.2 = st ∧
@@ -127,7 +132,7 @@ theorem C13_command_interpolation_error (env : Env) (root : Msg) (lno : Nat) (ar
 /-- An environment whose command oracle is `exec()` on the given `fork` / `waitpid` results. -/
 def exampleCommandEnv (f w : Res) : Env where
   rx := fun _ _ => .nomatch
-  command := fun _ => Proofs.execValue true f w
+  command := fun _ => Model.execValue true f w
   isDir := fun _ => false
   now := 0
   strptime := fun _ => none
